@@ -15,7 +15,7 @@ open(p,'w').write(re.sub(old,new.replace('\\','\\\\'),s,count=1))
 PY
 cd "$(dirname "$0")/.."
 set +e
-GALLIA_REPO=$W ./check $ID > /var/tmp/mut-$ID-$$.out 2>&1
+VERIF_EVIDENCE_DIR=/var/tmp/scratch-evidence GALLIA_REPO=$W ./check $ID > /var/tmp/mut-$ID-$$.out 2>&1
 rc=$?
 echo "exit=$rc  $(grep -c '^VIOLATION' /var/tmp/mut-$ID-$$.out) violation line(s): $(grep '^VIOLATION' /var/tmp/mut-$ID-$$.out | head -2 | tr '\n' ' ')"
 grep '^VIOLATION' /var/tmp/mut-$ID-$$.out | head -1 | sed 's/.*replay=\([^ ]*\).*/\1/' | xargs -r -I{} /venv/bin/python -c "import json;d=json.load(open('{}'));print('   ',d.get('key'),'|',str(d.get('what'))[:200])"
